@@ -1139,6 +1139,11 @@ pub fn oracle_c12(op: &str, outs: &[String]) -> String {
                 };
                 let authentic12 = w.len() >= 8 && w[3] == "d" && w[7] != "-";
                 let expired_accept = out.starts_with("resp=SessionExpired") && authentic12 && fits12 == Some(true);
+                if out.starts_with("resp=DownlinkReceived(") && w.get(3) != Some(&"d") {
+                    // builder X — the reference does not take these octets for a downlink data frame at all
+                    // (view `g` / `j`: unparseable, an uplink-typed frame, a JoinAccept)
+                    return "FAIL:accepted-what-the-reference-does-not-take-for-a-downlink-frame".into();
+                }
                 if out.starts_with("resp=DownlinkReceived(") || expired_accept {
                     cnt = 0;
                     if w[5] == "1" {
